@@ -152,7 +152,11 @@ class RefServer:
                 if rest:   # bytes already received after the response are ciphertext
                     self.buf += self.dec.update(rest)
                 self.run_script()
-        # play state: frames are only recorded
+        # play state: frames are only recorded; `close_on_play_frame: n` = the server goes away as soon as it has received
+        # its n-th play-state frame (the client finds out when it next writes or reads)
+        elif self.state == 'play' and self.cfg.get('close_on_play_frame'):
+            if len([f for f in self.frames if f[0] == 'play']) >= self.cfg['close_on_play_frame']:
+                self.close()
 
     def on_status(self, pid, payload):
         st = self.cfg.get('status', ('json', json.dumps({'version': {'name': 'x', 'protocol': self.cfg['version']},
